@@ -18,6 +18,7 @@ mod cmd;
 mod wire;
 mod loop_;
 mod nodeabs;
+mod hll;
 
 use common::*;
 use std::path::{Path, PathBuf};
@@ -47,6 +48,7 @@ fn replay_file(comp: &str, path: &Path, out: &mut Out) {
         "wire" => wire::replay(&desc, &ops, out),
         "loop" => loop_::replay(&desc, &ops, out),
         "nodeabs" => nodeabs::replay(&desc, &ops, out),
+        "hll" => hll::replay(&desc, &ops, out),
         _ => panic!("unknown component"),
     }
 }
@@ -155,6 +157,7 @@ fn main() {
         "wire" => wire::run(&args, &mut out),
         "loop" => loop_::run(&args, &mut out),
         "nodeabs" => nodeabs::run(&args, &mut out),
+        "hll" => hll::run(&args, &mut out),
         _ => {
             eprintln!("unknown component {}", comp);
             std::process::exit(2)
